@@ -31,7 +31,7 @@ func newFmEnv(height int64) *fmEnv {
 	e.bank.modules[fmFeeCollector] = nil
 	e.bank.modules[fmCommunity] = nil
 	e.creator, e.a, e.b = vAddr(1), vAddr(2), vAddr(3)
-	e.k = NewKeeper(e.cdc, e.key, e.bank, e.acc, nil, nil, nil, fmFeeCollector, fmCommunity, vAddr(9).String()) // the app's own constructor
+	e.k = NewKeeper(e.cdc, e.key, e.bank, e.acc, nil, nil, fmCoinswap{}, fmFeeCollector, fmCommunity, vAddr(9).String()) // the app's own constructor
 	if err := e.k.SetParams(e.ctx, types.DefaultParams()); err != nil {
 		verifFail("default params rejected")
 	}
@@ -67,3 +67,8 @@ func (e *fmEnv) bal(addr sdk.AccAddress, denom string) *big.Int {
 }
 func (e *fmEnv) mod(denom string) *big.Int { return e.bal(vModuleAddr(types.ModuleName), denom) }
 func (e *fmEnv) collector() *big.Int       { return e.bal(vModuleAddr(types.RewardCollector), fmReward) }
+
+// fmCoinswap: the farm module's view of coinswap: every liquidity-token denomination names a pool
+type fmCoinswap struct{}
+
+func (fmCoinswap) ValidatePool(ctx sdk.Context, lptDenom string) error { return nil }
